@@ -87,6 +87,10 @@ def random_scenario(rng, kind, policy=None, bind="", mapping_p=0.25, mon_p=0.4, 
           "arr": arr}
     if rng.random() < mon_p:
         sc["mon"] = {"incl": rng.choice([0, 1]), "gaps": [step * K * rng.choice([0, 1, 1, 2, 3]) for _ in range(rng.randint(1, 6))]}
+    if rng.random() < 0.2:
+        # the same scenario in another time unit: one tick = 2**e seconds, the rate 2**-e times as large (stamps a
+        # picosecond apart on a terabit link / virtual times beyond 2**30 on a very slow one): nothing may change
+        sc["tscale"] = rng.choice([-40, -40, -33, 20, 30])
     if rng.random() < 0.12:
         # the environment's clock does not start at 0 (VirtualClock's formula max(now, auxVC) presupposes auxVC = 0 at
         # the start: no negative origin there)
